@@ -16,6 +16,13 @@ extern "C" __attribute__((used)) const char *__ubsan_default_options() {
     return "print_stacktrace=1:halt_on_error=1:exitcode=77";
 }
 
+FILE *g_plan_dump; uint64_t g_plan_every = 0, g_plan_seen = 0;
+void plan_dump_maybe(const std::string &plan) {
+    if(!g_plan_dump || !g_plan_every) return;
+    if(g_plan_seen++ % g_plan_every) return;
+    fprintf(g_plan_dump, "%s----\n", plan.c_str()); fflush(g_plan_dump);
+}
+
 static Engine *engines[] = {&engine_c05, &engine_c07, &engine_c14, &engine_c04, &engine_c15};
 
 // ---------------------------------------------------------------- watchdog (hang => exit 78)
@@ -173,6 +180,8 @@ int main(int argc, char **argv) {
         else if(a == "--log") keeplog = true;
         else if(a == "--budget") budget_s = atof(nx());
         else if(a == "--wd") wd_limit = atoi(nx());
+        else if(a == "--plan-dump") g_plan_dump = fopen(nx(), "w");
+        else if(a == "--plan-every") g_plan_every = strtoull(nx(), 0, 10);
         else if(a == "--list-types") list = true;
         else { fprintf(stderr, "unknown arg %s\n", a.c_str()); return 64; }
     }
